@@ -20,6 +20,7 @@ import SqlglotModel.Proofs.TreeNorm
 import SqlglotModel.Proofs.TreeWalk
 import SqlglotModel.Proofs.TreeRepair
 import SqlglotModel.Proofs.TreeOrder
+import SqlglotModel.Proofs.TreeIter
 import SqlglotModel.Generated.C08
 
 namespace SqlglotModel.Properties.C08
@@ -205,6 +206,7 @@ theorem generated_structure_ok :
     SqlglotModel.Generated.C08.replaceChildrenShape = true ∧
     SqlglotModel.Generated.C08.simplifyRepairShape = true ∧
     SqlglotModel.Generated.C08.hashIteratesSortedKeys = true ∧
+    SqlglotModel.Generated.C08.iteratorShapes = true ∧
     SqlglotModel.Generated.C08.rawClasses = ["identifier", "literal"] := by decide +kernel
 
 /-- `Expr.__init__` skips `_set_parent` for `is_primitive` classes (the model's `cls()` + `set` does not have that
@@ -364,5 +366,49 @@ def litB : Node HT :=
 theorem unsorted_hash_depends_on_insertion_order :
     hashNodeUnsorted freeHash litA (fun _ => none) ≠ hashNodeUnsorted freeHash litB (fun _ => none) ∧
     hashNode freeHash litA (fun _ => none) = hashNode freeHash litB (fun _ => none) := by decide +kernel
+
+/-! ### iterators and finders the optimizer relies on -/
+
+/-- `dfs` / `bfs` / `walk` with `prune` enumerate EXACTLY the nodes reachable from the start node through non-pruned
+    nodes (soundness and completeness as sets; that each node is yielded once additionally needs the no-sharing clause
+    and is checked by correspondence, not proved) -/
+theorem walk_enumerates_reachable (bfs : Bool) (prune : Id → Bool) (h : Heap H) (fuel : Nat) (root : Id) (res : List Id)
+    (he : opWalk bfs prune fuel h root = some res) (x : Id) : x ∈ res ↔ ReachP h prune root x := walk_exact he x
+
+/-- `find_all(types)` yields exactly the reachable nodes of the wanted classes -/
+theorem find_all_exact (bfs : Bool) (P : String → Bool) (h : Heap H) (fuel : Nat) (root : Id) (res : List Id)
+    (he : opFindAll bfs P fuel h root = some res) (x : Id) :
+    x ∈ res ↔ ReachP h (fun _ => false) root x ∧ P (h x).cls = true := findAll_exact he x
+
+/-- `find_ancestor(types)` returns the NEAREST ancestor of a wanted class on the parent chain (or None) -/
+theorem find_ancestor_nearest (P : String → Bool) (f : Nat) (h : Heap H) (n : Id) (anc : List Id)
+    (ha : ancestors f h n = some anc) : opFindAncestor P f h n = some (anc.find? (fun a => P (h a).cls)) :=
+  findAncestor_nearest P f h n anc ha
+
+/-- `root()` is the end of the parent chain and has no parent; `depth` is the length of the parent chain -/
+theorem root_and_depth (f : Nat) (h : Heap H) (n : Id) (anc : List Id) (ha : ancestors f h n = some anc) :
+    (∃ r, rootOf f h n = some r ∧ (h r).parent = none ∧ r = (n :: anc).getLast (by simp)) ∧
+    depthOf f h n = some anc.length := ⟨root_spec f h n anc ha, depth_eq_length f h n anc ha⟩
+
+/-- under the invariant, the parent pointer followed by `root` / `depth` / `find_ancestor` from a stored node IS its
+    storage parent: the chain they climb is the chain of slots the node is stored under -/
+theorem parent_chain_is_storage_chain (F : HashFns H) (h : Heap H) (hI : Inv F h) (p c : Id) (k : String)
+    (i : Option Nat) (hs : Stored h p k i c) : (h c).parent = some p := parent_is_storage_parent F hI hs
+
+/-- `unnest()` never returns a `Paren` -/
+theorem unnest_strips_parens (f : Nat) (h : Heap H) (n r : Id) (he : unnestOf f h n = some (some r)) :
+    (h r).cls ≠ "paren" := unnest_not_paren f h n r he
+
+/-- the "move instead of copy" discipline of the optimizer rules: a node that was installed in a tree must not afterwards be
+    handed to a `copy=False` builder (the builder would re-parent it under a throwaway wrapper: stale links). A conservative
+    syntactic scan (ast, every run) lists each function in which one variable is both installed (`replace` / `set` /
+    `append`) and moved (`…(var, copy=False)`) later or inside the same loop, with the exact installing expression. The two
+    reviewed sites: `_merge_expressions` moves the expression only on the LAST reference (`if i < last`), `_expand_using`
+    builds a fresh replacement per iteration. Any new site, or a change of an installing expression, breaks this build. -/
+theorem optimizer_moves_reviewed :
+    SqlglotModel.Generated.C08.optimizerPlaceThenMove =
+      ["merge_subqueries.py:_merge_expressions:expression | placed: column.replace(expression.copy() if i < last else expression) | moved: exp.paren(expression, copy=False)",
+       "qualify_columns.py:_expand_using:replacement | placed: scope.replace(column, replacement) | moved: alias(replacement, alias=column.name, copy=False)"] := by
+  decide +kernel
 
 end SqlglotModel.Properties.C08
